@@ -679,10 +679,14 @@ fn main() {
             }
         }
         Some("pipe") => {
+            // a helper that spins forever on a real descriptor must not hang the check: SIGALRM kills
+            // the driver (reported as a crash of the code under test)
+            unsafe { libc::alarm(420) };
             pipe_path(args[2].parse().unwrap(), args[3].parse().unwrap());
             return;
         }
         Some("print") => {
+            unsafe { libc::alarm(420) };
             print_path(args[2].parse().unwrap(), args[3].parse().unwrap());
             return;
         }
